@@ -77,6 +77,16 @@ fn install_quiet_hook() {
 }
 
 /// Number of worker threads to use.
+/// Set once a run has recorded so many occurrences of new violations that exploring further can add nothing to
+/// its verdict (exit 1 either way). Engines poll it between executions / expansions and wind down, so that a check
+/// run against a broken tree — where a failing path may be far more expensive than the passing one, e.g. through
+/// retry loops — still ends promptly. Never set on a tree where the property holds.
+pub static VIOLATION_BUDGET_SPENT: std::sync::atomic::AtomicBool = std::sync::atomic::AtomicBool::new(false);
+pub const VIOLATION_BUDGET: u64 = 3000;
+pub fn budget_spent() -> bool {
+    VIOLATION_BUDGET_SPENT.load(std::sync::atomic::Ordering::Relaxed)
+}
+
 pub fn workers() -> usize {
     std::env::var("VERIF_JOBS")
         .ok()
